@@ -1874,7 +1874,15 @@ unsigned int CppCheck::analyseWholeProgram(const std::string &buildDir, const st
     if (Settings::unusedFunctionOnly())
         return mLogger->exitcode();
 
-    executeAddonsWholeProgram(files, fileSettings, ctuInfo);
+    try {
+        executeAddonsWholeProgram(files, fileSettings, ctuInfo);
+    } catch (const std::runtime_error &e) {
+        // malformed addon output - report it like a failure during the per-file addon execution
+        internalError("", std::string("Whole program analysis failed: ") + e.what());
+    } catch (const InternalError &e) {
+        const ErrorMessage errmsg = ErrorMessage::fromInternalError(e, nullptr, "", "Bailing out from analysis: Whole program analysis failed");
+        mErrorLogger.reportErr(errmsg);
+    }
 
     std::list<Check::FileInfo*> fileInfoList;
     CTU::FileInfo ctuFileInfo;
